@@ -34,6 +34,7 @@ THEOREMS = [
     "Nix.C18.C18_bump_last",
     "Nix.C18.C18_version_old_while_interrupted",
     "Nix.C18.C18_resumable",
+    "Nix.C18.C18_resumable_total",
     "Nix.C18.C18_resumable_history",
     "Nix.C18.C18_resumable_clean",
     "Nix.C18.C18_resumable_steps",
